@@ -51,8 +51,8 @@ RULE = (
     "transform(X[S]) = transform(X[T])|S is evaluated label by label; a trace is a maximal chain (singleton -> whole data set) all of whose "
     "states and edges were validated. Alphabet: model class (EOF, ComplexEOF, SparsePCA, POP, EOFRotator, ComplexEOFRotator, CPCCA alpha .5/1, "
     "MCA, CCA, RDA, ComplexCPCCA, ComplexMCA [ComplexCCA, ComplexRDA thorough], CPCCARotator alpha .5/1, MCARotator, ComplexCPCCARotator, "
-    "ComplexMCARotator, multi.CCA) x sample structure (one dim, two dims, MultiIndex, fit MultiIndex/new plain, fit plain/new MultiIndex) x "
-    "coordinates (disjoint, overlapping, equal to training, repeated, training rows at own / at new coordinates, one all-NaN sample, repeated labels with an all-NaN sample sharing / not sharing its label with valid samples) x "
+    "ComplexMCARotator, multi.CCA) x sample structure (one dim, two dims, MultiIndex, fit MultiIndex/new plain, fit plain/new MultiIndex, list of two fields on one sample dim) x "
+    "coordinates (disjoint, overlapping, equal to training, repeated, training rows at own / at new coordinates, one all-NaN sample, repeated labels with an all-NaN sample sharing / not sharing its label with valid samples; list input: items entirely missing at different samples, equal and unequal counts) x "
     "n_new = 5 (two dims: 3x2 block; quick: 3 resp. 2x2 outside the key classes), whose lattice contains as lower ideals the complete lattices of "
     "its 1..4-sample (1x1..2x2) prefixes, x arguments (X and Y, X only, Y only) [x normalized (quick: one_dim, disjoint/train_subset only), standardize+coslat: thorough]"
 )
@@ -65,6 +65,7 @@ ASSUMPTIONS = [
     "new data sets have at most 5 samples (6 for the 3x2 two-dimensional block); the feature layout is that of the training data",
     "two sample dimensions: sub-data-sets are the rectangular sub-blocks (what isel on the sample dims can express); non-rectangular subsets only through the all-NaN-sample class",
     "a sub-data-set consisting only of entirely missing samples is outside the quantifier (1..N samples) and not a state",
+    "list-fitted models: a sample at which one item is entirely missing is incomplete (accepted absent or all-NaN, never scored); sub-data-sets without a complete sample are not states; incomplete samples carry unique labels",
     "the numeric catalogue (geometric spectrum, orthogonal factors drawn from VERIF_SEED) stands for 'all values'",
 ]
 TALLY_KEYS = ("model", "structure", "coords", "args", "normalized", "prep")
@@ -111,13 +112,19 @@ def class_of(model):
     return "multi." + cls if fam == "multi" else cls
 
 
-STRUCTURES = ("one_dim", "two_dims", "multiindex", "mi_fit_plain_new", "plain_fit_mi_new")
-COORDS = ("disjoint", "overlap", "equal", "repeats", "train_subset", "train_moved", "nan_sample", "repeats_nan_shared", "repeats_nan_unique")
+STRUCTURES = ("one_dim", "two_dims", "multiindex", "mi_fit_plain_new", "plain_fit_mi_new", "list_one_dim")
+# list_one_dim: the model is fitted on a LIST [grid field, station field] (cross-set: X is that list, Y a third field);
+# every item is sanitised on its own, so items may be entirely missing at DIFFERENT samples of the new data
+QUICK_LIST_MODELS = ("EOF", "EOFRotator", "MCA")
+COORDS = ("disjoint", "overlap", "equal", "repeats", "train_subset", "train_moved", "nan_sample", "repeats_nan_shared", "repeats_nan_unique", "list_nan_cross", "list_nan_unequal")
 # repeated sample labels combined with one entirely missing sample: its label is also carried by valid samples
 # ("shared": dropping it BY LABEL would silently drop those too) / is unique next to repeated valid labels
 NAN_KINDS = ("nan_sample", "repeats_nan_shared", "repeats_nan_unique")
 REPEATS_NAN = ("repeats_nan_shared", "repeats_nan_unique")
 QUICK_REPEATS_NAN_MODELS = ("EOF", "MCA", "EOFRotator", "CPCCARotator_a05")
+# list input only: item 0 entirely missing at sample 1 (unequal: 1 and 2), item 1 entirely missing at sample 3. Such a sample
+# is incomplete (its scores are NaN or it is absent); every complete sample must keep exactly the scores it gets alone.
+LIST_NAN = {"list_nan_cross": ((1,), (3,)), "list_nan_unequal": ((1, 2), (3,))}
 
 
 def _fit_is_mi(structure):
@@ -131,6 +138,10 @@ def _new_is_mi(structure):
 def _admissible(structure, coords):
     if structure in ("mi_fit_plain_new", "plain_fit_mi_new") and coords in ("overlap", "equal", "train_subset"):
         return False  # training labels are not expressible in the other index kind
+    if coords in LIST_NAN and structure != "list_one_dim":
+        return False
+    if structure == "list_one_dim" and coords in REPEATS_NAN:
+        return False
     if structure == "two_dims" and coords in REPEATS_NAN:
         return False  # a repeated label in one of two sample dims cannot be unstacked at all (known finding C05-K1, class 'repeats')
     return True
@@ -145,6 +156,8 @@ def sizes_for(tier, structure, coords, fam, args, secondary):
     checked against the same per-sample prediction. Only the largest one is therefore run."""
     one = structure != "two_dims"
     big, small = (5, 3) if one else ((3, 2), (2, 2))
+    if structure == "list_one_dim" and (coords in LIST_NAN or coords == "train_subset"):
+        return [5]  # the per-item missing samples sit at positions 1..3
     if tier == "quick":
         key = structure == "one_dim" and coords in ("disjoint", "repeats", "train_subset") + REPEATS_NAN and not (fam == "cross" and args != "XY")
         n = big if key else small
@@ -162,6 +175,8 @@ def cases(tier, seed):
         fam = MODELS[model][0]
         argsets = ["XY", "X", "Y"] if fam == "cross" else (["views"] if fam == "multi" else ["X"])
         for structure in STRUCTURES:
+            if structure == "list_one_dim" and (fam == "multi" or (quick and model not in QUICK_LIST_MODELS)):
+                continue
             for coords in COORDS:
                 for args in argsets:
                     for normalized in (False, True):
@@ -177,11 +192,13 @@ def cases(tier, seed):
                                 if coords not in ("disjoint", "repeats", "train_subset"):
                                     continue
                             if quick:
-                                if fam == "cross" and args != "XY" and (structure != "one_dim" or coords not in ("disjoint", "train_subset", "nan_sample")):
+                                if fam == "cross" and args != "XY" and not (structure == "one_dim" and coords in ("disjoint", "train_subset", "nan_sample")) and not (structure == "list_one_dim" and args == "X" and coords in LIST_NAN):
                                     continue
                                 if structure in ("mi_fit_plain_new", "plain_fit_mi_new") and coords != "disjoint":
                                     continue
                                 if structure in ("two_dims", "multiindex") and coords in ("equal", "train_moved"):
+                                    continue
+                                if structure == "list_one_dim" and (coords not in ("disjoint", "repeats", "train_subset", "nan_sample") + tuple(LIST_NAN) or args == "Y"):
                                     continue
                                 if coords in REPEATS_NAN and (model not in QUICK_REPEATS_NAN_MODELS or structure not in ("one_dim", "multiindex")):
                                     continue
@@ -223,8 +240,10 @@ def _field(M, which, structure_is_mi, sample_labels, shape2=None, runs=None):
     n = M.shape[0]
     if which == "X":
         fdims, fcoords, fshape, name = ("lat", "lon"), {"lat": LATS, "lon": LONS}, (3, 2), "sst"
-    else:
+    elif which == "Y":
         fdims, fcoords, fshape, name = ("station",), {"station": STATIONS}, (4,), "precip"
+    else:
+        fdims, fcoords, fshape, name = ("level",), {"level": [850, 500, 200]}, (3,), "wind"
     if shape2 is not None:
         nt, nr = shape2
         da = xr.DataArray(M.reshape((nt, nr) + fshape), dims=("time", "run") + fdims, coords=dict(time=list(sample_labels), run=list(runs), **fcoords), name=name)
@@ -246,6 +265,10 @@ def training(structure, cplx, seed):
         labels = [(a, b) for a in t for b in TRAIN_RUNS]
         return X, Y, Mx, My, labels, ("time", "run")
     t = list(range(N_TRAIN))
+    if structure == "list_one_dim":
+        X = [_field(Mx, "X", False, t), _field(My, "Y", False, t)]
+        Y = _field(_mz(cplx, seed), "Z", False, t)
+        return X, Y, Mx, My, [(a,) for a in t], ("time",)
     mi = _fit_is_mi(structure)
     X = _field(Mx, "X", mi, t)
     Y = _field(My, "Y", mi, t)
@@ -253,8 +276,12 @@ def training(structure, cplx, seed):
     return X, Y, Mx, My, labels, ("time",)
 
 
+def _mz(cplx, seed):
+    return D.make_matrix(N_TRAIN, 3, "geometric", 1.0, cplx, seed, salt=503) - 2.0
+
+
 def _time_labels(coords, n):
-    if coords in ("disjoint", "nan_sample"):
+    if coords in ("disjoint", "nan_sample") or coords in LIST_NAN:
         return [104, 100, 102, 101, 103][:n]  # unsorted on purpose
     if coords == "overlap":
         return [7, 100, 2, 101, 9][:n]
@@ -312,6 +339,18 @@ def new_data(structure, coords, n, cplx, seed, Mx, My, base=False):
         Zx = D.make_matrix(6, 6, "geometric", 1.0, cplx, seed, salt=511)[:m] * 1.5 + 0.5
         Zy = D.make_matrix(6, 4, "geometric", 1.0, cplx, seed, salt=512)[:m] - 1.0
     nan = set()
+    is_list = structure == "list_one_dim"
+    if is_list:
+        Zz = _mz(cplx, seed)[rows] if rows is not None else D.make_matrix(6, 3, "geometric", 1.0, cplx, seed, salt=513)[:m] + 2.0
+        Zx, Zy = Zx.copy(), Zy.copy()
+        if not base and (coords in LIST_NAN or coords in NAN_KINDS):
+            na, nb = LIST_NAN.get(coords, ((1,), (1,)))  # nan_sample: the sample is missing in both items
+            Zx[list(na)] = np.nan
+            Zy[list(nb)] = np.nan
+            nan = set(na) | set(nb)  # samples that are not complete: absent from the scores or all-NaN
+        X = [_field(Zx, "X", False, tl), _field(Zy, "Y", False, tl)]
+        Y = _field(Zz, "Z", False, tl)
+        return dict(X=X, Y=Y, labels=labels, grid=None, nan=nan, train_rows=rows if trainish else None, sample_dims=("time",), mi=False)
     if coords in NAN_KINDS and not base:
         nan = {1 if not two else (1 * grid[1] + 0)}  # second time label (two dims: its first run)
         Zx = Zx.copy()
@@ -371,6 +410,8 @@ def flat(ds, sel):
 
 
 def subset(obj, sel):
+    if isinstance(obj, list):
+        return [subset(o, sel) for o in obj]
     t, r = sel
     if r is None:
         return obj.isel(time=list(t))
@@ -643,7 +684,7 @@ def _explore(case, seed, model, fam, cplx, Mx, My, train_labels, sc, modes, n, b
                 bad(
                     "sample_labels",
                     "field %s: transform of samples %s returned sample labels %s" % (f, exp_labels, [lab for lab, _ in pairs][:12]),
-                    got=_got_kind([lab for lab, _ in pairs], train_label_set, exp_valid),
+                    got="incomplete_sample_scored" if any(missing_ok.get(lab, 0) > 0 for lab, _ in kept) else _got_kind([lab for lab, _ in pairs], train_label_set, exp_valid),
                     single_sample=single,
                 )
                 ok = False
